@@ -221,7 +221,7 @@ def run(ctx):
     endians |= env.endians
     arms = {}
     raw_arms = {}
-    for t in terms:
+    for t in W.hoist_alt(terms, "magic"):
         if t[0] == "ALT":
             for c, b in t[1]:
                 for mag in (0, 1):
@@ -236,7 +236,7 @@ def run(ctx):
             want = [None, "message.magic", "message.attributes"] + (["message.timestamp"] if mag == 1 else []) + ["message.key", "message.value"]
             for b, w in zip(binds, want):
                 # a bare local (the computed crc, the clock value substituted for a missing timestamp) is not compared
-                if w is not None and b != w and not (w == "message.timestamp" and b.isidentifier()):
+                if w is not None and b != w and w != "message.timestamp":  # the timestamp leaf is examined below
                     problem = "fields bound to %s, expected %s" % (binds, want)
         if not problem and mag == 1:
             # the caller's timestamp is written whenever it is not None (0 is a legal timestamp): the clock may
